@@ -131,6 +131,17 @@ ATTR_CLASSES = [
      'RESERVED_ATTRIBUTES', ['camelCaseToDashName']),
 ]
 
+# parser classes: methods of which `self` is a record of plain fields, one of them the list of open elements (`_inTag`) used
+# through a second name; the items of that list are elements of which only the attributes listed are read (`l[i].tagName`:
+# `Expr.elemAttr`, a parameter of the interpreter): (file, lean name of the list, class, methods to dump, attributes of items,
+# library exception classes the methods raise with the base class they must have, functions of other dumped modules they call:
+# name -> (module file, lean list it is dumped in))
+PARSER_CLASSES = [
+    ('Parser.py', 'parser', 'AdvancedHTMLParser', ['handle_endtag'], ('tagName',), {}, {}),
+]
+# special methods a PARSER_CLASSES class must not define (`self.f` is then the plain attribute)
+PARSER_CLASS_FORBIDDEN = ('__getattr__', '__getattribute__', '__setattr__')
+
 BUILTIN_FUNCS = ('int', 'bool', 'str', 'hasattr', 'issubclass', 'len', 'list')
 # methods that change their receiver: `x.m(args)` as an expression statement on a local variable is `Stmt.varCall`
 MUTATORS = ('append', 'remove', 'acquire', 'release')
@@ -319,7 +330,7 @@ def _check_tostr(repo):
 
 
 class _FunTranslator(object):
-    def __init__(self, mod, fn, earlier, prims=None, lean_name=None, static=False, cls=None, acls=None):
+    def __init__(self, mod, fn, earlier, prims=None, lean_name=None, static=False, cls=None, acls=None, pcls=None):
         self.mod = mod
         self.fn = fn
         self.earlier = earlier          # names of the module functions defined before this one
@@ -330,6 +341,9 @@ class _FunTranslator(object):
         # a class of ATTR_CLASSES: {'name', 'reserved' (names with plain dot access), 'consts' (class-level constant tuples:
         # name -> Tuple node), 'statics' (dumped static methods callable as Class.m)}
         self.acls = acls
+        # a class of PARSER_CLASSES: {'name', 'elem_attrs' (attributes read from items of a list of elements), 'exc' (library
+        # exception classes that may be named)}
+        self.pcls = pcls
         self.aliases = {}               # local variable -> field of self it is a second name of
         self.comp_vars = set()          # variables of comprehensions
         self.lean_name = lean_name or (fn.name + '_ast')
@@ -401,6 +415,8 @@ class _FunTranslator(object):
                 self.locals.add(n.name)
         if 'tostr' in self.imported.values():
             _check_tostr(mod.repo)
+        if pcls is not None:
+            self.find_aliases()
         if acls is not None:
             self.find_aliases()
             for n in ast.walk(fn):
@@ -441,7 +457,14 @@ class _FunTranslator(object):
         """`x = self.f` at the top level of the body, x bound nowhere else, self.f never assigned: x is a second name of
         the object in self.f"""
         fn = self.fn
-        for st in fn.body:
+        places = list(fn.body)
+        if self.pcls is not None:
+            # also directly inside a `try:` at the top level (the body of `handle_endtag`): run at most once, and a read of
+            # the name before it is bound is an UnboundLocalError in the interpreter as in Python
+            for st in fn.body:
+                if isinstance(st, ast.Try):
+                    places += list(st.body)
+        for st in places:
             if isinstance(st, ast.Assign) and len(st.targets) == 1 and isinstance(st.targets[0], ast.Name) \
                     and self.self_field(st.value) is not None:
                 x = st.targets[0].id
@@ -523,6 +546,8 @@ class _FunTranslator(object):
                 return '(.avar %s)' % lean_str(n.id)
             if not module_scope and n.id in self.locals:
                 return '(.var %s)' % lean_str(n.id)
+            if not module_scope and n.id in self.comp_vars:
+                return '(.var %s)' % lean_str(n.id)
             if n.id in self.imported:
                 self.fail(n, 'imported function %s used as a value' % n.id)
             if n.id in self.mod.singletons:
@@ -533,6 +558,8 @@ class _FunTranslator(object):
                 for (m, c) in LIBRARY_EXC:
                     if c == n.id:
                         _check_library_exc(self.mod.repo, m, c)
+                return '(.excClass %s)' % lean_str(n.id)
+            if self.pcls is not None and n.id in self.pcls['exc']:
                 return '(.excClass %s)' % lean_str(n.id)
             if n.id in self.mod.const_tuples:
                 return self.expr(self.mod.const_tuples[n.id], module_scope=True)
@@ -551,6 +578,18 @@ class _FunTranslator(object):
                 self.fail(n, 'comprehension other than [e for a, b in d.items()]')
             return '(.compItems %s %s %s %s)' % (lean_str(g.target.elts[0].id), lean_str(g.target.elts[1].id),
                                                  self.expr(n.elt, module_scope), self.expr(g.iter.func.value, module_scope))
+        if self.pcls is not None and isinstance(n, ast.ListComp):
+            g = n.generators[0] if len(n.generators) == 1 else None
+            if g is None or g.ifs or g.is_async or not isinstance(g.target, ast.Name):
+                self.fail(n, 'comprehension other than [e for x in l]')
+            return '(.compFor %s %s %s)' % (lean_str(g.target.id), self.expr(n.elt, module_scope), self.expr(g.iter, module_scope))
+        if self.pcls is not None and isinstance(n, ast.Attribute) and isinstance(n.ctx, ast.Load) \
+                and isinstance(n.value, ast.Subscript) and not isinstance(n.value.slice, (ast.Slice, ast.Tuple)) \
+                and isinstance(n.value.value, ast.Name) and n.value.value.id in self.aliases and id(n) not in self.callees:
+            # an attribute of an item of the list of elements
+            if n.attr not in self.pcls['elem_attrs']:
+                self.fail(n, 'attribute %s of an element' % n.attr)
+            return '(.elemAttr %s %s)' % (self.expr(n.value, module_scope), lean_str(n.attr))
         if self.acls is not None and isinstance(n, ast.Call) and self.object_call(n) == '__getattribute__':
             return '(.objAttr %s %s)' % (lean_str(self.self_name), self.expr(n.args[1], module_scope))
         if self.acls is not None and isinstance(n, ast.Call) and self.object_call(n) == '__setattr__':
@@ -720,6 +759,10 @@ class _FunTranslator(object):
                     self.fail(st, 'the method %s is not dumped before this one (dependency order)' % v.func.attr)
                 return comment, ['%s.varCall %s %s [%s]' % (pad, lean_str(v.func.value.id), lean_str(v.func.attr),
                                                            ', '.join(self.expr(a) for a in v.args))]
+            if self.pcls is not None and isinstance(v, ast.Call) and isinstance(v.func, ast.Attribute) \
+                    and isinstance(v.func.value, ast.Name) and v.func.value.id in self.aliases and v.func.attr == 'pop' \
+                    and not v.args and not v.keywords:
+                return comment, ['%s.refCall %s %s []' % (pad, lean_str(v.func.value.id), lean_str(v.func.attr))]
             if isinstance(v, ast.Call) and isinstance(v.func, ast.Attribute) and isinstance(v.func.value, ast.Name) \
                     and v.func.value.id in self.aliases:
                 self.fail(st, 'statement method of an aliased field')
@@ -787,7 +830,15 @@ class _FunTranslator(object):
         if isinstance(st, ast.For):
             if st.orelse or not isinstance(st.target, ast.Name):
                 self.fail(st, 'for/else, loop target')
-            lines = ['%s.forS %s %s [' % (pad, lean_str(st.target.id), self.expr(st.iter))]
+            it = st.iter
+            if self.pcls is not None and isinstance(it, ast.Call) and isinstance(it.func, ast.Name) and it.func.id == 'range' \
+                    and 'range' not in self.locals and 'range' not in self.mod.rebound and len(it.args) == 1 \
+                    and not it.keywords and not isinstance(it.args[0], ast.Starred):
+                # `range(n)` exists as the iterable of a `for` only (the interpreter makes it the tuple of the numbers)
+                it_text = '(.call "range" [%s])' % self.expr(it.args[0])
+            else:
+                it_text = self.expr(it)
+            lines = ['%s.forS %s %s [' % (pad, lean_str(st.target.id), it_text)]
             lines += self.block(st.body, ind + 2)
             lines.append('%s]' % pad)
             return comment, lines
@@ -795,6 +846,15 @@ class _FunTranslator(object):
             if len(st.targets) != 1 or not isinstance(st.targets[0], ast.Name):
                 self.fail(st, 'assignment target')
             return comment, ['%s.assign %s %s' % (pad, lean_str(st.targets[0].id), self.expr(st.value))]
+        if self.pcls is not None and isinstance(st, ast.AugAssign):
+            # `x op= e` on a local variable is `x = x op e`: the interpreter's `+ - *` give numbers and texts only (immutable;
+            # anything else is an error), so that there is no in-place variant to tell apart
+            op = BINOPS.get(type(st.op))
+            if op is None or not isinstance(st.target, ast.Name) or st.target.id in self.aliases \
+                    or st.target.id == self.self_name:
+                self.fail(st, 'augmented assignment')
+            x = lean_str(st.target.id)
+            return comment, ['%s.assign %s (.binop %s (.var %s) %s)' % (pad, x, op, x, self.expr(st.value))]
         if isinstance(st, ast.Return):
             v = '(.const .none)' if st.value is None else self.expr(st.value)
             return comment, ['%s.ret %s' % (pad, v)]
@@ -1052,8 +1112,69 @@ def generate_code(repo):
         parts.append('/-- %s: the dumped methods of class %s -/' % (rel, cls_name))
         parts.append('def %s : List Fun :=\n  [%s]' % (lean_name, ',\n   '.join(names)))
         parts.append('')
+    for rel, lean_name, cls_name, methods, elem_attrs, excs, imports in PARSER_CLASSES:
+        mod = _Module(repo, rel)
+        cls = mod.classes.get(cls_name)
+        if cls is None:
+            raise Untranslatable('%s: no top-level class %s' % (rel, cls_name))
+        if cls.decorator_list or cls.keywords:
+            mod.fail(cls, 'class with decorators / keywords')
+        defs = {}
+        for st in ast.walk(cls):
+            if isinstance(st, ast.FunctionDef):
+                defs.setdefault(st.name, []).append(st)
+        assigned = set()
+        for st in cls.body:
+            if isinstance(st, ast.Assign):
+                for t in st.targets:
+                    for nm in ast.walk(t):
+                        if isinstance(nm, ast.Name):
+                            assigned.add(nm.id)
+        for bad in PARSER_CLASS_FORBIDDEN:
+            if bad in defs or bad in assigned:
+                mod.fail(cls, 'class %s defines %s' % (cls_name, bad))
+        for (emod, ename), ebase in sorted(excs.items()):
+            if ('%s' % emod, 1, ename) not in mod.from_imports:
+                mod.fail(cls, '%s is not imported once from .%s' % (ename, emod))
+            _check_exc_base(repo, emod, ename, ebase)
+        earlier = []
+        for fname, (frel, _flean) in sorted(imports.items()):
+            if mod.imported_funcs.get(fname) != frel or not any(
+                    r == frel and w is not None and fname in w for (r, _l, w) in MODULES):
+                mod.fail(cls, '%s is not imported once from %s (a dumped function)' % (fname, frel))
+            earlier.append(fname)
+        info = {'name': cls_name, 'elem_attrs': tuple(elem_attrs), 'exc': set(n for (_m, n) in excs)}
+        names = []
+        for m in methods:
+            if len(defs.get(m, [])) != 1 or defs[m][0] not in cls.body or m in assigned:
+                raise Untranslatable('%s: class %s does not define %s exactly once' % (rel, cls_name, m))
+            fn = defs[m][0]
+            # the fields used must be plain instance attributes: no class-level name (property, method) hides them
+            for n in ast.walk(fn):
+                if isinstance(n, ast.Attribute) and isinstance(n.value, ast.Name) and fn.args.args \
+                        and n.value.id == fn.args.args[0].arg and (n.attr in defs or n.attr in assigned):
+                    mod.fail(n, '%s.%s is a class-level name, not a plain field' % (n.value.id, n.attr))
+            ln = '%s_%s_ast' % (cls_name, m.strip('_'))
+            parts.append(_FunTranslator(mod, fn, list(earlier), prims=set(), lean_name=ln, pcls=info).translate())
+            parts.append('')
+            names.append(ln)
+        parts.append('/-- %s: the dumped methods of class %s -/' % (rel, cls_name))
+        parts.append('def %s : List Fun :=\n  [%s]' % (lean_name, ',\n   '.join(names)))
+        parts.append('')
     parts.append('end AHP.Gen.Code')
     return '\n'.join(parts) + '\n'
+
+
+def _check_exc_base(repo, module, name, want):
+    """The exception class must exist in the sibling module, once, with exactly the base class given."""
+    p = os.path.join(repo, 'AdvancedHTMLParser', module + '.py')
+    tree = _parse(open(p, encoding='utf-8').read(), p)
+    found = [st for st in ast.walk(tree) if isinstance(st, ast.ClassDef) and st.name == name]
+    if len(found) != 1 or found[0] not in tree.body:
+        raise Untranslatable('%s.py: class %s is not defined exactly once at the top level' % (module, name))
+    st = found[0]
+    if not (len(st.bases) == 1 and isinstance(st.bases[0], ast.Name) and st.bases[0].id == want and not st.keywords):
+        raise Untranslatable('%s.py:%d: %s is not a direct subclass of %s' % (module, st.lineno, name, want))
 
 
 def _check_method_body(mod, cls_name, name, args, body):
